@@ -88,6 +88,9 @@ SIM = {"quick": [("MC_sim.cfg", 400, 120)], "thorough": [("MC_sim.cfg", 8000, 16
 TWINS = {"quick": 150, "thorough": 3000}
 
 SPECIFIC = {
+    "C08": ["vectors"],
+    "C11": ["vectors"],
+    "C14": ["vectors"],
     "C13": ["twins-cancel"],
     "C15": ["twins-fragment", "twins-stall"],
     # property -> extra groups (generated by tools/gen_*.py, registered in GENERATORS below)
@@ -208,6 +211,21 @@ def gen_sim(tier, seed, outdir, mqv, root):
     json.dump({"tool_errors": errs, "samples": samples, "drift": drift}, open(os.path.join(outdir, "meta.json"), "w"))
 
 
+def gen_vectors(tier, seed, outdir, mqv, root):
+    import gen_vectors as gv
+    samples = []
+    for rx in ((64,) if tier == "quick" else (64, 33, 200)):
+        vs = gv.generate(tier, seed, rx)
+        vf = os.path.join(outdir, "vectors-%d.ndjson" % rx)
+        with open(vf, "w") as f:
+            for v in vs:
+                f.write(json.dumps(v) + "\n")
+        msg = run([mqv, "vectors", vf, os.path.join(outdir, "vectors-%d.trace" % rx), str(rx)])
+        os.remove(vf)
+        samples.append({"group": "vectors", "rx": rx, "vectors": len(vs), "harness": msg, "example": vs[len(vs) // 2]})
+    json.dump({"tool_errors": [], "samples": samples}, open(os.path.join(outdir, "meta.json"), "w"))
+
+
 def gen_twins(kind):
     def gen(tier, seed, outdir, mqv, root):
         n = TWINS[tier]
@@ -217,7 +235,7 @@ def gen_twins(kind):
     return gen
 
 
-GENERATORS = {"twins-stall": gen_twins("stall"), "twins-cancel": gen_twins("cancel"), "twins-fragment": gen_twins("fragment"), "common": gen_common, "witness": gen_witness, "cover": gen_cover, "sim": gen_sim}
+GENERATORS = {"vectors": gen_vectors, "twins-stall": gen_twins("stall"), "twins-cancel": gen_twins("cancel"), "twins-fragment": gen_twins("fragment"), "common": gen_common, "witness": gen_witness, "cover": gen_cover, "sim": gen_sim}
 
 
 def generate(group, tier, seed, outdir, mqv, root):
